@@ -8,3 +8,6 @@ func verifPoint(point string, id int64, detail string) {}
 
 // verifPointN is verifPoint with two integer details instead of a string.
 func verifPointN(point string, id int64, n1, n2 int) {}
+
+// verifDsID identifies a data store in hook details.
+func verifDsID(ds *dataStore) int { return 0 }
